@@ -164,9 +164,10 @@ def written(sp, ncalls=None):
 # --------------------------------------------------------------------------- running the writer
 
 def run_writer(sp, top, log=None, fail_at=0, errno=ENOSPC, persist=0, kill_at=0, snap_dir=None, step=None,
-               timeout=120, popen=False):
-    """run one recording into <top>/ch0 (created here).  Returns (outcomes, returncode, stderr)."""
-    os.makedirs(os.path.join(top, CH), exist_ok=True)
+               timeout=120, popen=False, chan=None):
+    """run one recording into <top>/<chan or ch0> (created here).  Returns (outcomes, returncode, stderr)."""
+    chan = chan or CH
+    os.makedirs(os.path.join(top, chan), exist_ok=True)
     env = common.impl_env()
     env["LD_PRELOAD"] = build_shim()
     env["FSSHIM_ROOT"] = top
@@ -181,7 +182,7 @@ def run_writer(sp, top, log=None, fail_at=0, errno=ENOSPC, persist=0, kill_at=0,
     if step:
         env.update(FSSHIM_STEP_OUT=step[0], FSSHIM_STEP_IN=step[1])
     s2 = dict(sp)
-    s2["chan"] = os.path.join(top, CH)
+    s2["chan"] = os.path.join(top, chan)
     cmd = [common.PYTHON, os.path.join(CDRIVER, "proto_writer.py"), json.dumps(s2)]
     if popen:
         return subprocess.Popen(cmd, env=env, stdout=subprocess.PIPE, stderr=subprocess.PIPE, text=True)
